@@ -101,12 +101,12 @@ ReadExt(bs, p0) ==
 (* -> [ok, seqs, nib] or Bad(why); `nib` is the (unused) match nibble of the last token when *)
 (* the block ends after literals. A block that ends right after a match parses to a list     *)
 (* whose last element has a match (breaks end rule 1).                                       *)
+(* (A fold over the byte positions, not a recursion over the sequences: linear time and       *)
+(* constant evaluation depth also for blocks with tens of thousands of sequences.)            *)
 Parse(bs) ==
     LET n == Len(bs)
-        RECURSIVE go(_, _)
-        go(p, acc) ==
-            IF p > n THEN (IF acc = <<>> THEN Bad("empty-block") ELSE [ok |-> TRUE, seqs |-> acc, nib |-> 0])
-            ELSE
+        Sqn(sq, nx, nib) == [ok |-> TRUE, sq |-> sq, nx |-> nx, nib |-> nib]
+        one(p) ==        \* the sequence whose token is at p: [ok, sq, nx, nib] or Bad(why)
             LET tok == bs[p]
                 ln  == tok \div 16
                 mn  == tok % 16
@@ -120,15 +120,23 @@ Parse(bs) ==
             IF ~HasBytes(bs, le.p, L) THEN Bad("truncated-literal")
             ELSE
             LET lits == B(SubSeq(bs, le.p, q - 1)) IN
-            IF q > n THEN [ok |-> TRUE, seqs |-> Append(acc, LastLits(lits)), nib |-> mn]
+            IF q > n THEN Sqn(LastLits(lits), n + 1, mn)
             ELSE IF ~HasBytes(bs, q, 2) THEN Bad("truncated-offset")
             ELSE
             LET off == bs[q] + (256 * bs[q + 1])
                 me  == IF mn = 15 THEN ReadExt(bs, q + 2) ELSE [ok |-> TRUE, v |-> 0, p |-> q + 2]
             IN
             IF ~me.ok THEN Bad("truncated-match-length")
-            ELSE go(me.p, Append(acc, Sq(lits, off, MINMATCH + mn + me.v)))
-    IN go(1, <<>>)
+            ELSE Sqn(Sq(lits, off, MINMATCH + mn + me.v), me.p, 0)
+        step(st, i) ==   \* st = [ok, nx (position of the next token), seqs, nib] or Bad(why)
+            IF ~st.ok THEN st
+            ELSE IF i < st.nx THEN st
+            ELSE LET e == one(i) IN
+                 IF ~e.ok THEN e ELSE [ok |-> TRUE, nx |-> e.nx, seqs |-> Append(st.seqs, e.sq), nib |-> e.nib]
+        fin == FoldLeft(step, [ok |-> TRUE, nx |-> 1, seqs |-> <<>>, nib |-> 0], [i \in 1..n |-> i])
+    IN IF ~fin.ok THEN fin
+       ELSE IF fin.seqs = <<>> THEN Bad("empty-block")
+       ELSE [ok |-> TRUE, seqs |-> fin.seqs, nib |-> fin.nib]
 
 \* the reference decoder: [ok, out, strict] or Bad(why). strict = the block obeys everything
 \* the format says about blocks (a decoder must accept it); ~strict = parsable and
